@@ -49,14 +49,29 @@ theorem c13_jws_model (e : Jws.Env) (ci : ChainInfo) (via : Bool) (c : Content) 
     apply List.map_congr_left
     intro m _
     rw [hexact]
-  simp [jws, jwsDecoded, a1, a2, this, attrsRules_refl]
-  intro x hx
-  obtain ⟨k, hk, hnot⟩ := hn x hx
-  rw [hk]
-  simp [hnot]
+  obtain ⟨ms', h', b1, b2, hpres⟩ := Props.crit_present_of_content e c hv
+  have e1 : ms' = ms := by rw [a1] at b1; exact (Option.some.inj b1).symm
+  subst e1
+  have e2 : h' = h := by rw [a2] at b2; exact (Option.some.inj b2).symm
+  subst e2
+  have hcrit : (h'.crit.all fun l => (ms'.map (·.key)).contains l) = true := by
+    apply List.all_eq_true.mpr
+    intro l hl
+    simpa using hpres l hl
+  simp only [jws, jwsDecoded, a1, a2, Option.map_some, hcrit, this, attrsRules_refl, Bool.false_eq_true, if_false,
+    Bool.not_true]
+  split
+  · rename_i hany
+    obtain ⟨x, hx, hxk⟩ := List.any_eq_true.mp hany
+    obtain ⟨k, hk, hnot⟩ := hn x hx
+    rw [hk] at hxk
+    simp [hnot] at hxk
+  · rfl
 
 /-- **C13 monitor, COSE** -/
-theorem c13_cose_model (e : Cose.Env) (ci : ChainInfo) (via : Bool) (c : Content) (hv : Cose.content e = .val c) :
+theorem c13_cose_model (e : Cose.Env) (ci : ChainInfo) (via : Bool) (c : Content)
+    (hwf : ∀ l ∈ Cose.critLabels e.prot, (Cose.get e.prot l).isSome = true)
+    (hv : Cose.content e = .val c) :
     cose "C13" e ci via c = none := by
   obtain ⟨cty, scheme, alg, st, ex, _, _, _, _, _, _, _, _, hc⟩ := Proofs.Envelope.cose_content_inv e c hv
   have hext : c.extAttrs = Cose.extAttrsOf e := by rw [hc]; rfl
@@ -70,7 +85,17 @@ theorem c13_cose_model (e : Cose.Env) (ci : ChainInfo) (via : Bool) (c : Content
     cases hl : en.label with
     | int i => simp [Cose.isSystem, hl] at hns; simp [Cose.toAKey, hns]
     | text s => simp [Cose.isSystem, hl] at hns; simp [Cose.toAKey, hns]
-  simp [cose, hext, attrsRules_refl]
+  have hcrit : ((Cose.critLabels e.prot).all fun l => (Cose.get e.prot l).isSome) = true := List.all_eq_true.mpr hwf
+  have hspec : ((Cose.extAttrsOf e).any (fun a => match a.key with
+      | .int i => Generated.coseSystemIntLabels.contains i
+      | .text s => Generated.coseSystemTextLabels.contains s)) = false := by
+    apply List.any_eq_false.mpr
+    intro x hx
+    have := hn x hx
+    cases hk : x.key with
+    | int i => rw [hk] at this; simpa using this
+    | text t => rw [hk] at this; simpa using this
+  simp [cose, hext, attrsRules_refl, hcrit]
   exact hn
 
 /-! ### C07, C02, C01 -/
